@@ -104,7 +104,12 @@ fn one_op<B: Backend>(op: usize, kl: &KeyPair<B>, kp: &KeyPair<B>, s: &Secrets, 
                 return Ok(vec![]); // an RSA-4096 operation per call; covered by the sequential part
             }
             let key_raw = if kind.wraps_secret() { wrapped_secret } else { wrapped_local };
-            let (_, body) = split_paserk(&wrap::<B>(kind, key_raw, s)?);
+            let blob = wrap::<B>(kind, key_raw, s)?;
+            // the blob is also opened (successfully): what an unwrap remembers must not feed the next wrap
+            if !(kind == Wk::Seal && B::VER == 1) {
+                let _ = unwrap::<B>(kind, &blob, s)?;
+            }
+            let (_, body) = split_paserk(&blob);
             match kind {
                 Wk::PieLocal | Wk::PieSecret => vec![(format!("{}.{}.nonce", B::NAME, kind.name()), body[tl..tl + 32].to_vec())],
                 Wk::PwLocal | Wk::PwSecret => {
@@ -343,6 +348,10 @@ fn fresh_backend<B: Backend>(opts: &Opts, fr: &mut Fresh) {
         for i in 0..n {
             match wrap::<B>(kind, key_raw, &s) {
                 Ok(blob) => {
+                    // every fourth blob is opened again before the next wrap (wrap, unwrap, wrap, ... histories)
+                    if i % 4 == 0 && !(kind == Wk::Seal && B::VER == 1) && unwrap::<B>(kind, &blob, &s).is_err() {
+                        fr.rep.violation(&format!("C16|{}.{}|own-blob-not-opened", B::NAME, kind.name()), json!({"blob": blob}));
+                    }
                     let (_, body) = split_paserk(&blob);
                     let tl = if B::VER % 2 == 1 { 48 } else { 32 };
                     let seq = base + i as u64;
